@@ -260,6 +260,7 @@ func checkC11(c *Ctx) {
 
 	checkC11KeyNonZero(c)
 	checkC11Descent(c)
+	checkC11JoinRefs(c)
 
 	// ---- key-func ----
 	rf := c.Rule("C11.key-func", "identity maps are written and read through one key function", 4)
